@@ -22,7 +22,7 @@ from typing import Any, Dict, List, Optional, Tuple
 
 from engine.srcmatch import U
 from engine.mathobj import NOTIMPL, SLOTS, Dispatcher, NeedAssume, Obj, ang_input, from_angle_entries, mat_input, vec_input
-from engine.model import AnalysisError, Program, dotted, resolve_method, walk_no_nested
+from engine.model import AnalysisError, Program, dotted, mro, resolve_method, walk_no_nested
 from engine.poly import Opaque, Poly, PolyInterp, normal_form
 from engine.pyx import PyxFile, pyx_body_to_ast
 
@@ -239,6 +239,7 @@ def run(ctx: Any, prog: Program) -> None:
             ctx.check('C04.A9', not fuzzy, mt, f_, f'{q_} is memoised and takes {fuzzy} - objects whose == and hash ignore differences below 1e-6: the cache hands the result computed for one rotation to a different, '
                       'nearly equal one (entries off by up to ~2e-8, which scales with the vector rotated)', func=q_, text=f'{q_}: memo key is exact')
     a12_inplace_identity(ctx, mt)
+    a13_inverse_guards(ctx, mt)
     a8_pivoting(ctx, mt)
     a11_elimination(ctx, mt)
     a9_operator_purity(ctx, mt)
@@ -930,6 +931,53 @@ def a7_alias_safety(ctx: Any, prog: Program, mt: Any, pyx: Any) -> None:
         raise AnalysisError(f'A7: only {n_calls} mat_mul call sites found in _math.pyx')
 
 
+def a13_inverse_guards(ctx: Any, mt: Any) -> None:
+    """A13: inverse() refuses a matrix only for a reason that is true of singular matrices.
+
+    The elimination raises when it finds no pivot.  A test made *before* it on a polynomial of the nine entries (a determinant computed
+    by cofactor expansion) is evaluated here in the polynomial domain: a cubic that is not +-det(M) vanishes on some rotations, and
+    inverse() - which equals transpose() on rotations - raises for them."""
+    ctx.rule('C04.A13', 'a closed-form singularity test of inverse() is +-det(M), and the only other refusal is the missing pivot', floor=1)
+    inv = mt.methods('MatrixBase').get('inverse')
+    if inv is None:
+        raise AnalysisError('anchor vanished: MatrixBase.inverse')
+    S = {k: Poly.sym(f'self._{k}') for k in ('aa', 'ab', 'ac', 'ba', 'bb', 'bc', 'ca', 'cb', 'cc')}
+    det = S['aa'] * (S['bb'] * S['cc'] - S['bc'] * S['cb']) - S['ab'] * (S['ba'] * S['cc'] - S['bc'] * S['ca']) + S['ac'] * (S['ba'] * S['cb'] - S['bb'] * S['ca'])
+    interp = PolyInterp(lambda s_: None, None, filename=mt.relpath)
+    env: Dict[str, Any] = {}
+    n_g = 0
+    for st in inv.body:
+        if isinstance(st, (ast.For, ast.While)):
+            break            # the elimination: its refusal is the missing pivot
+        if isinstance(st, (ast.Assign, ast.AnnAssign)) and getattr(st, 'value', None) is not None:
+            try:
+                v_ = interp.ev(st.value, env)
+            except Exception:
+                v_ = None
+            for t_ in (st.targets if isinstance(st, ast.Assign) else [st.target]):
+                if isinstance(t_, ast.Name):
+                    env[t_.id] = v_
+        if isinstance(st, ast.If) and any(isinstance(x, ast.Raise) for b in st.body for x in ast.walk(b)):
+            polys = []
+            for nm_ in [x for x in ast.walk(st.test) if isinstance(x, (ast.Name, ast.BinOp))]:
+                try:
+                    pv = interp.ev(nm_, env) if not isinstance(nm_, ast.Name) else env.get(nm_.id)
+                except Exception:
+                    pv = None
+                if isinstance(pv, Poly) and pv.is_const() is None:
+                    polys.append(pv)
+            n_g += 1
+            if not polys:
+                ctx.shape('C04.A13', False, mt, st, f'inverse() raises under `{U(st.test)[:50]}` before the elimination: the tested quantity is not a polynomial of the entries', func='MatrixBase.inverse', text='closed-form singularity test')
+                continue
+            p0 = polys[0]
+            ok = (p0 - det).is_zero() or (p0 + det).is_zero()
+            ctx.check('C04.A13', ok, mt, st, f'inverse() raises when `{U(st.test)[:50]}`, where the tested value is {p0!r} - not the determinant {det!r}: it vanishes for rotations that are perfectly invertible '
+                      '(e.g. a yaw of 45 degrees when one cofactor has the wrong sign), and inverse() raises ArithmeticError instead of returning the transpose', func='MatrixBase.inverse', text='closed-form singularity test is the determinant')
+    pivots = [r for l in inv.body if isinstance(l, (ast.For, ast.While)) for r in ast.walk(l) if isinstance(r, ast.Raise)]
+    ctx.check('C04.A13', len(pivots) >= 1 or n_g >= 1, mt, inv, 'inverse() refuses singular matrices (missing pivot in the elimination)', func='MatrixBase.inverse', text='singular matrices refused')
+
+
 def a12_inplace_identity(ctx: Any, mt: Any) -> None:
     """`x @= r` on a mutable object changes THAT object: every other reference to it (an alias, a list element, an attribute) has to see the
     rotated value.  The written-out in-place operators of the mutable classes therefore return `self` (or NotImplemented), or the result of
@@ -975,6 +1023,41 @@ def a12_inplace_identity(ctx: Any, mt: Any) -> None:
                 ctx.check('C04.A12', ok, mt, r, f'{cls}.{mname} returns {why} instead of the object it was applied to: `x {mname[3:-2]}= y` then only rebinds the name, and every other reference to the '
                           'object keeps the old value', func=f'{cls}.{mname}', text=f'{cls}.{mname} returns self')
     ctx.shape('C04.A12', n >= 3, mt, mt.tree, f'{n} returns of in-place operators found', text='in-place operators')
+    # A12 (operand coverage): `x @= y` stays in place only while __imatmul__ accepts y; for an operand it answers NotImplemented for, Python
+    # evaluates `x = x @ y` instead - a new object, the old one (and every other reference to it) unrotated.  The classes the in-place operator
+    # dispatches on must therefore cover those of the plain operator of the same class.
+    def _disp_classes(fn_: ast.AST) -> Set[str]:
+        out_: Set[str] = set()
+        for c_ in walk_no_nested(fn_):
+            if isinstance(c_, ast.Call) and dotted(c_.func) == 'isinstance' and len(c_.args) == 2:
+                # only positive dispatch tests count (`if not isinstance(other, X): return NotImplemented` accepts X as well)
+                for e_ in (c_.args[1].elts if isinstance(c_.args[1], ast.Tuple) else [c_.args[1]]):
+                    d_ = dotted(e_)
+                    if d_:
+                        out_.add(d_.split('.')[-1].replace('Py_', ''))
+        return out_
+    n_cov = 0
+    for cls in ('Vec', 'Matrix', 'Angle'):
+        cm = mt.methods(cls)
+        for iname, fn_i in cm.items():
+            if not re.fullmatch(r'__i(matmul|add|sub|mul|truediv|floordiv|mod)__', iname):
+                continue
+            pname = '__' + iname[3:]
+            fn_p = None
+            for c_ in [cls] + [b for b in mro(mt, cls) if b != cls]:
+                if pname in mt.methods(c_):
+                    fn_p = mt.methods(c_)[pname]
+                    break
+            if fn_p is None:
+                continue
+            ci, cp = _disp_classes(fn_i), _disp_classes(fn_p)
+            if not ci or not cp:
+                continue
+            n_cov += 1
+            missing = sorted(cp - ci)
+            ctx.check('C04.A12', not missing, mt, fn_i, f'{cls}.{iname} dispatches on {sorted(ci)} while {pname} accepts {sorted(cp)}: for {missing} the in-place operator answers NotImplemented, Python falls back to '
+                      f'`x = x {pname[2:-2]} y` and binds a NEW object - the object `x` referred to (a list element, an alias) keeps its old value', func=f'{cls}.{iname}', text=f'{cls}.{iname} accepts what {pname} accepts')
+    ctx.shape('C04.A12', n_cov >= 2, mt, mt.tree, f'{n_cov} in-place operators with a type dispatch found (Vec.__imatmul__, Matrix.__imatmul__, Angle.__imatmul__ confirmed by hand)', text='in-place operator dispatch')
 
 
 def analyse_to_angle(ctx: Any, rule: str, relpath: str, qual: str, body: List[ast.stmt], rename: Any, FA: Dict[str, Poly],
@@ -1075,6 +1158,9 @@ def analyse_to_angle(ctx: Any, rule: str, relpath: str, qual: str, body: List[as
 
 
 MUTANTS = [
+    {'id': 'inverse_precheck_wrong_cofactor_sign', 'file': 'math.py', 'find': "        # We're already in row major\n", 'replace': "        det = (self._aa * (self._bb * self._cc - self._bc * self._cb) + self._ab * (self._ba * self._cc - self._bc * self._ca) + self._ac * (self._ba * self._cb - self._bb * self._ca))\n        if abs(det) <= 0.00001:\n            raise ArithmeticError('singular')\n        # We're already in row major\n", 'expect': 'C04.A13', 'note': 'round 12'},
+    {'id': 'ok_inverse_precheck_true_determinant', 'file': 'math.py', 'find': "        # We're already in row major\n", 'replace': "        det = (self._aa * (self._bb * self._cc - self._bc * self._cb) - self._ab * (self._ba * self._cc - self._bc * self._ca) + self._ac * (self._ba * self._cb - self._bb * self._ca))\n        if abs(det) <= 1e-12:\n            raise ArithmeticError('singular')\n        # We're already in row major\n", 'expect': None, 'note': 'round 12: negative control'},
+    {'id': 'vec_imatmul_declines_angles', 'file': 'math.py', 'find': "        if isinstance(other, MatrixBase):\n            mat = other\n        elif isinstance(other, AngleBase):\n            mat = Py_Matrix.from_angle(other)\n        else:\n            return NotImplemented\n        # noinspection PyProtectedMember\n        mat._vec_rot(self)", 'replace': "        if isinstance(other, MatrixBase):\n            mat = other\n        else:\n            return NotImplemented\n        # noinspection PyProtectedMember\n        mat._vec_rot(self)", 'expect': 'C04.A12', 'note': 'round 12'},
     {'id': 'frozen_angle_matrix_memoised', 'file': 'math.py', 'find': "def _mk_vec(x: float, y: float, z: float) -> Vec:", 'replace': "@__import__('functools').lru_cache(maxsize=1024)\ndef _frozen_angle_matrix(ang: FrozenAngle) -> FrozenMatrix:\n    return Py_FrozenMatrix.from_angle(ang.pitch, ang.yaw, ang.roll)\n\n\ndef _mk_vec(x: float, y: float, z: float) -> Vec:", 'expect': 'C04.A9'},
     {'id': 'angle_imatmul_returns_new_angle', 'file': 'math.py', 'find': "            mat = Py_Matrix.from_angle(self)\n            mat @= other\n            return mat._to_angle(self)  # Inplace", 'replace': "            return other._rotate_angle(self, Py_Angle)", 'expect': 'C04.A12'},
     {'id': 'gimbal_yaw_from_forward_axis_near_pole', 'file': 'math.py', 'find': "            ang._yaw = math.degrees(math.atan2(-left_x, left_y)) % 360.0 % 360.0\n", 'replace': "            if horiz_dist > 1e-9:\n                ang._yaw = math.degrees(math.atan2(for_y, for_x)) % 360.0 % 360.0\n            else:\n                ang._yaw = math.degrees(math.atan2(-left_x, left_y)) % 360.0 % 360.0\n", 'expect': 'C04.A5'},
